@@ -526,6 +526,14 @@ pub(crate) mod verif_probe {
                         { log.lock().phase = 1; }
                     }
                 }
+                else if st["reload_pool"].as_bool() == Some(true) {
+                    // a RELOAD re-created the pool: same definition, same servers, another config_hash
+                    let mut p2 = pool.clone();
+                    p2.config_hash = 0x5eed;
+                    let mut pools = (*(*POOLS.load())).clone();
+                    pools.insert(PoolIdentifier::new(&db, &usern), p2);
+                    POOLS.store(Arc::new(pools));
+                }
                 else if let Some(ms) = st["sleep_ms"].as_u64() { tokio::time::sleep(Duration::from_millis(ms)).await; a_out.extend(drain(&mut a, 50).await); }
                 else if st["pause"].as_bool() == Some(true) { pool.pause(); }
                 else if st["resume"].as_bool() == Some(true) { pool.resume(); }
@@ -1064,6 +1072,7 @@ pub(crate) mod verif_probe {
                 // reads everything: a request larger than the socket buffers is mirrored, a second one 3.5 s later.  Is what the mirror
                 // receives a sequence of whole requests?
                 let rt = tokio::runtime::Builder::new_multi_thread().worker_threads(3).enable_all().build().unwrap();
+                let answers = v["mode"].as_str() == Some("answers");
                 let r = rt.block_on(async move { timeout(Duration::from_secs(40), async move {
                     let listener = TcpListener::bind("127.0.0.1:0").await.unwrap();
                     let port = listener.local_addr().unwrap().port();
@@ -1084,6 +1093,26 @@ pub(crate) mod verif_probe {
                                 out.put(ready_for_query(false));
                                 if sock.write_all(&out).await.is_err() { return; }
                                 let idx = { let mut g = got3.lock(); g.push(vec![]); g.len() - 1 };
+                                if answers {
+                                    // a live mirror: reads every message, answers queries like PostgreSQL would (BEGIN -> in transaction, SET -> SET)
+                                    let mut status = b'I';
+                                    loop {
+                                        let code = match sock.read_u8().await { Ok(c) => c, Err(_) => return };
+                                        let len = match sock.read_i32().await { Ok(l) => l, Err(_) => return };
+                                        let mut body = vec![0u8; (len as usize).saturating_sub(4)];
+                                        if sock.read_exact(&mut body).await.is_err() { return; }
+                                        { let mut g = got3.lock(); g[idx].push(code); g[idx].extend_from_slice(&len.to_be_bytes()); g[idx].extend_from_slice(&body); }
+                                        if code == b'X' { return; }
+                                        if code != b'Q' { continue; }
+                                        let q = String::from_utf8_lossy(&body).to_ascii_uppercase();
+                                        let tag = if q.starts_with("BEGIN") { status = b'T'; "BEGIN" } else if q.starts_with("ROLLBACK") || q.starts_with("COMMIT") { status = b'I'; "ROLLBACK" }
+                                                  else if q.starts_with("SET") { "SET" } else if q.starts_with("RESET") { "RESET" } else { "SELECT 1" };
+                                        let mut out = BytesMut::new();
+                                        out.put(command_complete(tag));
+                                        out.put_u8(b'Z'); out.put_i32(5); out.put_u8(status);
+                                        if sock.write_all(&out).await.is_err() { return; }
+                                    }
+                                }
                                 tokio::time::sleep(Duration::from_millis(3000)).await;
                                 let mut buf = vec![0u8; 1 << 20];
                                 loop {
@@ -1103,13 +1132,13 @@ pub(crate) mod verif_probe {
                     let user = User { username: "u".to_string(), password: Some("p".to_string()), ..User::default() };
                     let mut mgr = crate::mirrors::MirroringManager::from_addresses(user, "db".to_string(), vec![addr]);
                     tokio::time::sleep(Duration::from_millis(300)).await;
-                    let big = simple_query(&"x".repeat(24 << 20));
-                    let small = simple_query("SELECT 2");
+                    let big = if answers { simple_query("SET statement_timeout TO 1000") } else { simple_query(&"x".repeat(24 << 20)) };
+                    let small = if answers { simple_query("BEGIN") } else { simple_query("SELECT 2") };
                     mgr.send(&BytesMut::from(&big[..]));
-                    tokio::time::sleep(Duration::from_millis(3500)).await;
+                    tokio::time::sleep(Duration::from_millis(if answers { 400 } else { 3500 })).await;
                     mgr.send(&BytesMut::from(&small[..]));
-                    tokio::time::sleep(Duration::from_millis(7000)).await;
-                    let streams = got.lock().clone();
+                    tokio::time::sleep(Duration::from_millis(if answers { 800 } else { 7000 })).await;
+                    let streams: Vec<Vec<u8>> = got.lock().iter().map(|s| { let mut s = s.clone(); if s.ends_with(&[b'X', 0, 0, 0, 4]) { let n = s.len() - 5; s.truncate(n); } s }).collect();
                     // every connection: whole frames only (a cut frame only as its last bytes AND nothing after it), frames equal to the requests in order
                     let mut ok_all = true; let mut detail = vec![];
                     for (ci, s) in streams.iter().enumerate() {
